@@ -29,7 +29,8 @@ from torch.nn import Parameter
 from simkit import gen
 from simkit.core import HarnessError, StepResult, Violation, digest_bytes
 from simkit.faults import InjectedInterrupt, Interrupt
-from simkit.fingerprint import diff, fingerprint, resources
+import simkit.fingerprint as _fp
+from simkit.fingerprint import BEHAVIOUR_KEY, diff, fingerprint, resources
 from simkit.rng import Rng
 
 import deepali.spatial as S
@@ -233,6 +234,12 @@ class Ctx:
         V = gen.randn(self._next(), ((n or self.N), D, D + 1), 0.1) + torch.eye(D, D + 1)
         return self._wrap("mat", V)
 
+    def sqmat(self, D: Optional[int] = None) -> Tensor:
+        """Square (N, D, D) matrix with scaling and shear (the other documented form of functions taking (..., D, D|D+1))."""
+        D = D or self.D
+        V = gen.randn(self._next(), (self.N, D, D), 0.2) + torch.eye(D, D) * 1.3
+        return self._wrap("sqmat", V)
+
     def vec(self, k: int) -> Tensor:
         return self._wrap("vec", gen.randn(self._next(), (self.N, k), 0.4) + 0.5)
 
@@ -347,6 +354,19 @@ def make_object(kind: str, seed: int, D: int, pool_grids: List[Grid]):
         kw = {}
         if name in ("FreeFormDeformation", "StationaryVelocityFreeFormDeformation"):
             kw["stride"] = 2
+        if name == "SequentialTransform":
+            # a composite nested in a composite, with a leaf whose parameters are predicted from the conditioning input
+            tshape = (1,) + tuple(S.Translation(grid, params=False).data_shape)
+            rshape = (1,) + tuple(S.EulerRotation(grid, params=False).data_shape)
+            inner = S.SequentialTransform(S.Translation(grid, params=ConstNet(seed + 1, tshape, 0.05)),
+                                          S.EulerRotation(grid, params=gen.randn(seed + 2, rshape, 0.1)))
+            if pk == "N":
+                outer_members = [inner, S.Translation(grid, params=Parameter(gen.randn(seed + 3, tshape, 0.05)))]
+            else:
+                outer_members = [S.EulerRotation(grid, params=ConstNet(seed + 4, rshape, 0.1)), inner]
+            t = S.SequentialTransform(*outer_members)
+            t.condition_(gen.randn(seed + 5, (3,)))
+            return t
         if name in ("RigidTransform", "AffineTransform"):
             t = cls(grid)
             for p in t.parameters():
@@ -376,7 +396,7 @@ def make_object(kind: str, seed: int, D: int, pool_grids: List[Grid]):
 
 
 TRANSFORM_KINDS = [f"T:{n}/{k}" for n in ("Translation", "EulerRotation", "DisplacementFieldTransform", "StationaryVelocityFieldTransform",
-                                          "FreeFormDeformation", "StationaryVelocityFreeFormDeformation") for k in ("P", "B", "C")] + ["T:RigidTransform/P", "T:AffineTransform/P", "T:HomogeneousTransform/P", "T:HomogeneousTransform/B"] + [
+                                          "FreeFormDeformation", "StationaryVelocityFreeFormDeformation") for k in ("P", "B", "C")] + ["T:RigidTransform/P", "T:AffineTransform/P", "T:HomogeneousTransform/P", "T:HomogeneousTransform/B", "T:SequentialTransform/N", "T:SequentialTransform/M"] + [
                        f"T:{n}/{k}" for n in ("IsotropicScaling", "AnisotropicScaling", "Shearing", "QuaternionRotation") for k in ("P", "B")]
 OBJECT_KINDS = ["Grid", "Cube", "Image", "ImageBatch", "FlowField", "FlowFields", "Tensor"] + TRANSFORM_KINDS
 
@@ -691,6 +711,7 @@ def _t_setter_arg(o, r, which: str):
 
 ACC["Transform"] = {
     "grid": lambda o, r: o.grid(_t_grid(o, r)),
+    "grid:equal": lambda o, r: o.grid(r.choice([o.grid().clone(), o.grid(), o.grid().align_corners(o.grid().align_corners())])),
     "data": lambda o, r: o.data(_t_data(o, r)),
     "condition": lambda o, r: o.condition(_t_cond(r)),
     "condition:kw": lambda o, r: o.condition(scale=r.choice([3.0, 0.5])),
@@ -707,6 +728,8 @@ ACC["Transform"] = {
     "state_dict": lambda o, r: o.state_dict(),
     "parameters": lambda o, r: list(o.parameters()),
 }
+
+T_COPY_ACCESSORS = ("grid", "grid:equal", "data", "condition", "condition:args+kw", "inverse", "inv", "unlink", "link", "matrix")
 
 READONLY: Dict[str, Callable] = {
     "call": lambda o, r: o(gen.rand(r.randrange(10**6), (1, 5, o.ndim), -0.8, 0.8)),
@@ -862,10 +885,16 @@ class FrameWorld:
         return [o for o in self.pool.values() if isinstance(o, Grid) and o.ndim == self.D]
 
     # ------------------------------------------------------------ the frame check
-    def snapshot(self, extra: Optional[List[Tuple[str, Any]]] = None):
-        snap = {("pool", k): fingerprint(v) for k, v in self.pool.items()}
-        for name, t in extra or []:
-            snap[("arg", name)] = fingerprint(t)
+    def snapshot(self, extra: Optional[List[Tuple[str, Any]]] = None, behaviour: bool = True):
+        # what every pool transform *does* (simkit.fingerprint.behaviour_entry) is part of the snapshot of operations
+        # that involve a transform; operations on tensors, grids and images alone skip it (cost)
+        _fp.BEHAVIOUR = bool(behaviour)
+        try:
+            snap = {("pool", k): fingerprint(v) for k, v in self.pool.items()}
+            for name, t in extra or []:
+                snap[("arg", name)] = fingerprint(t)
+        finally:
+            _fp.BEHAVIOUR = True
         return snap
 
     def frame_check(self, before, after, receiver: Optional[int], mode: str, opdesc: str, recv_tag: str, at: str = "after") -> List[Violation]:
@@ -890,10 +919,12 @@ class FrameWorld:
                 prefixes = tuple(self._paths_of_receiver(self.pool.get(ident), recv_obj))
                 if prefixes:
                     role = "alias"
+                    # (what such an object *does* follows the receiver it contains: a linked transform reads the cached
+                    # prediction of its target, a composite evaluates its members)
                     if mode == "mutate":
-                        free_paths = lambda path, pf=prefixes: path.startswith(pf)
+                        free_paths = lambda path, pf=prefixes: path.startswith(pf) or path == BEHAVIOUR_KEY
                     else:
-                        free_paths = lambda path, pf=prefixes: path.startswith(pf) and _is_cache_path(path)
+                        free_paths = lambda path, pf=prefixes: (path.startswith(pf) and _is_cache_path(path)) or path == BEHAVIOUR_KEY
             if mode == "mutate" and not is_recv:
                 shared = resources(fb) & r_res
                 if shared:
@@ -949,7 +980,10 @@ class FrameWorld:
                extra=None, independent_of: Optional[int] = None):
         """Execute fn under the frame condition. Returns (status, result, violations)."""
         recv_tag = self.meta[receiver]["tag"] if receiver is not None else "-"
-        before = self.snapshot(extra)
+        beh = isinstance(self.pool.get(receiver), torch.nn.Module) or any(isinstance(t_, torch.nn.Module) for _, t_ in extra or [])
+        if beh:
+            self.c["checks"]["frame:behaviour_of_pool_transforms"] += 1
+        before = self.snapshot(extra, beh)
         viol: List[Violation] = []
         status, result = "ok", None
         try:
@@ -966,7 +1000,7 @@ class FrameWorld:
         except Exception as e:
             status = "raised"
             result = e
-        after = self.snapshot(extra)
+        after = self.snapshot(extra, beh)
         if mode != "mutate" or status == "ok":
             # a non-mutating operation has not written its arguments at any prefix either
             viol += self.frame_check(before, after, receiver, mode, opdesc, recv_tag, at="after" if status == "ok" else ("interrupt" if status == "faulted" else "exception"))
@@ -1100,6 +1134,13 @@ class FrameWorld:
                 viol.append(Violation("C15", "argument-mutated", f"argument-mutated/acc:{op['name']}/{tag}/{nm}", {"arg": nm, "at": status}))
                 break
         self.api_note(f"{tag}.{op['name']}", "called" if status == "ok" else status)
+        if status == "ok" and tag == "Transform" and result is obj and op["name"] in T_COPY_ACCESSORS:
+            # "a new transformation with ..." / "shallow copy with ...": whatever the caller does to the result next
+            # (data_, condition_, grid_ ...) must not be done to the receiver -- also when nothing had to be changed
+            self.c["checks"]["accessor_result_is_not_receiver"] += 0
+            viol.append(Violation("C15", "accessor-returned-receiver", f"accessor-returned-receiver/acc:{op['name']}/{tag}", {"accessor": op["name"]}))
+        elif status == "ok" and tag == "Transform" and op["name"] in T_COPY_ACCESSORS:
+            self.c["checks"]["accessor_result_is_not_receiver"] += 1
         if status == "ok" and isinstance(result, Entangled):
             viol.append(Violation("C15", "result-follows-argument", f"result-follows-argument/acc:{op['name']}/{tag}", {"what": result.what}))
             result = None
@@ -1303,7 +1344,10 @@ class _Gen:
             op = getattr(self, "gen_" + kind)(rng)
             if op is not None:
                 if sc["interrupts"] and op["op"] in ("func", "accessor", "readonly", "copy", "torch") and rng.chance(sc["interrupt_rate"]):
-                    op["interrupt"] = rng.randint(1, 40)
+                    # most functions make a handful of torch calls, a few make dozens: the abort point is drawn from a short,
+                    # a medium and a long range so that every prefix of a short function is hit often (a mutate-then-restore
+                    # window is two or three calls wide)
+                    op["interrupt"] = rng.randint(1, rng.weighted([(6, 3.5), (15, 3.5), (60, 3)]))
                 return op
         return {"op": "new", "kind": "Grid", "seed": rng.subseed(), "out": self.alloc()}
 
@@ -1406,7 +1450,7 @@ class FrameEngine:
             kinds_on["Image"] = True
         interrupts = bool(rng.chance(0.6))
         return {"profile": profile or "C15", "tier": tier, "D": rng.weighted([(2, 3), (3, 1)]), "weights": weights, "kinds_on": kinds_on,
-                "interrupts": interrupts, "interrupt_rate": rng.choice([0.1, 0.3]), "min_pool": rng.choice([2, 3, 4]), "max_pool": rng.choice([6, 9, 12]),
+                "interrupts": interrupts, "interrupt_rate": rng.choice([0.15, 0.4]), "min_pool": rng.choice([2, 3, 4]), "max_pool": rng.choice([6, 9, 12]),
                 "api_mod": rng.choice([1, 3, 7]), "api_phase": rng.randint(0, 6), "length": rng.randint(10, 30 if tier == "quick" else 45)}
 
     def new_world(self, scenario) -> World:
